@@ -17,6 +17,10 @@ import (
 
 var tables = map[string]bool{"Locations": true, "IsBoundary": true, "MergedSchema": true, "BoundaryQueries": true}
 
+type mcall struct {
+	fn, site, callee, lock string
+}
+
 type access struct {
 	fn, site, field string
 	write           bool
@@ -31,6 +35,9 @@ func main() {
 	files, _ := filepath.Glob(filepath.Join(*repo, "*.go"))
 	sort.Strings(files)
 	var accs []access
+	var leaks []string
+	var calls []mcall              // calls of a method of the receiver, with the lock state at the call
+	takesLock := map[string]bool{} // methods that call mutex.Lock / mutex.RLock themselves
 	for _, f := range files {
 		base := filepath.Base(f)
 		if strings.HasSuffix(base, "_test.go") || strings.HasPrefix(base, "verif_") {
@@ -59,11 +66,24 @@ func main() {
 				recv = fd.Recv.List[0].Names[0].Name
 			}
 			lock := ""
+			deferred := false // a deferred Unlock/RUnlock is pending: every return path releases
 			lhs := map[ast.Expr]bool{}
 			ast.Inspect(fd.Body, func(n ast.Node) bool {
 				switch x := n.(type) {
 				case *ast.DeferStmt:
+					if sel, ok := x.Call.Fun.(*ast.SelectorExpr); ok && (sel.Sel.Name == "Unlock" || sel.Sel.Name == "RUnlock") {
+						if inner, ok := sel.X.(*ast.SelectorExpr); ok && inner.Sel.Name == "mutex" {
+							deferred = true
+						}
+					}
 					return false // a deferred unlock runs at function exit
+				case *ast.FuncLit:
+					return false // a closure's returns are not the method's
+				case *ast.ReturnStmt:
+					if lock != "" && !deferred {
+						p := fset.Position(x.Pos())
+						leaks = append(leaks, "\""+fmt.Sprintf("%s:%d", filepath.Base(p.Filename), p.Line)+" "+fd.Name.Name+" returns holding the lock\"")
+					}
 				case *ast.CallExpr:
 					if sel, ok := x.Fun.(*ast.SelectorExpr); ok {
 						if inner, ok := sel.X.(*ast.SelectorExpr); ok && inner.Sel.Name == "mutex" {
@@ -71,12 +91,20 @@ func main() {
 								switch sel.Sel.Name {
 								case "Lock":
 									lock = "W"
+									takesLock[fd.Name.Name] = true
 								case "RLock":
 									lock = "R"
+									takesLock[fd.Name.Name] = true
 								case "Unlock", "RUnlock":
 									lock = ""
 								}
 							}
+						}
+					}
+					if sel, ok := x.Fun.(*ast.SelectorExpr); ok {
+						if id, ok := sel.X.(*ast.Ident); ok && id.Name == recv && recv != "" {
+							p := fset.Position(x.Pos())
+							calls = append(calls, mcall{fn: fd.Name.Name, site: fmt.Sprintf("%s:%d", filepath.Base(p.Filename), p.Line), callee: sel.Sel.Name, lock: lock})
 						}
 					}
 				case *ast.AssignStmt:
@@ -91,6 +119,22 @@ func main() {
 				}
 				return true
 			})
+		}
+	}
+	// a method takes the lock if it does so itself or calls one that does (sync.RWMutex is not reentrant: taking the read
+	// lock again while holding it deadlocks as soon as a writer is queued in between)
+	for changed := true; changed; {
+		changed = false
+		for _, c := range calls {
+			if takesLock[c.callee] && !takesLock[c.fn] {
+				takesLock[c.fn], changed = true, true
+			}
+		}
+	}
+	var relock []string
+	for _, c := range calls {
+		if c.lock != "" && takesLock[c.callee] {
+			relock = append(relock, "\""+c.site+" "+c.fn+" calls "+c.callee+" holding the "+map[string]string{"R": "read", "W": "write"}[c.lock]+" lock\"")
 		}
 	}
 	q := func(s string) string { return "\"" + s + "\"" }
@@ -124,7 +168,11 @@ func main() {
 		"Definition table_reads_in_execute : list (string * bool) :=\n  " + l(tre) + ".\n" +
 		"Definition table_reads_elsewhere : list (string * bool) :=\n  " + l(tro) + ".\n" +
 		"Definition service_map_writes : list (string * bool) :=\n  " + l(sw) + ".\n" +
-		"Definition service_map_reads : list (string * bool) :=\n  " + l(sr) + ".\n"
+		"Definition service_map_reads : list (string * bool) :=\n  " + l(sr) + ".\n" +
+		"(* calls, made while the mutex is held, of methods that take the mutex themselves (directly or through other methods) *)\n" +
+		"Definition reentrant_lock_sites : list string :=\n  " + l(relock) + ".\n" +
+		"(* return statements reached with the mutex held and no deferred unlock pending *)\n" +
+		"Definition returns_holding_lock : list string :=\n  " + l(leaks) + ".\n"
 	if *out == "" {
 		fmt.Print(text)
 		return
